@@ -659,7 +659,7 @@ func (x *Exec) takeCensus() {
 	gs := parseDump(dumpAll())
 	n := 0
 	for _, g := range gs {
-		if g.inScheduler() {
+		if g.InScheduler() {
 			n++
 		}
 	}
@@ -706,7 +706,7 @@ func (x *Exec) settle() {
 		for k := 0; k < 3; k++ {
 			var s []G
 			for _, g := range parseDump(dumpAll()) {
-				if g.inScheduler() {
+				if g.InScheduler() {
 					s = append(s, g)
 				}
 			}
